@@ -20,7 +20,7 @@ MANIFEST = {
 }
 THEOREMS = ['C04.cache_transparent', 'C04.getUserId_sound', 'C04.getUserId_unique', 'C04.recognise_secure',
             'C04.setUser_no_literal_overlap', 'C04.semantic_overlap_accepted', 'C04.inv_step', 'C04.inv_run',
-            'C04.reachable_step', 'C04.getUserId_agrees', 'C04.revOK_reachable',
+            'C04.reachable_step', 'C04.getUserId_agrees', 'C04.revOK_reachable', 'C04.checkCapability_cache_free',
             'C04.glob_iff_matches', 'C04.glob_case', 'C04.patCharMatch_eq_cls',
             # obligation on the extracted case table
             'C04.rfc1459_table_classes', 'C03.rfc1459_table_ok']
